@@ -13,7 +13,7 @@ pub mod walk;
 
 use std::{fmt, sync::Arc};
 
-pub use corpus::corpus;
+pub use corpus::{corpus, extra};
 pub use drive::{Api, BgzfRead, Opts, read_log, read_log_bufread};
 pub use render::*;
 
@@ -156,6 +156,9 @@ pub struct Field {
     pub kind: &'static str,
     /// Integer encoding of the field.
     pub enc: Enc,
+    /// Layout-aware mutation values computed by the structural walk: values of this field for which the
+    /// enclosing record / block is exactly 0, 1 or 2 bytes too short or too long.
+    pub extra: Vec<u64>,
 }
 
 #[derive(Clone, Copy, Debug, PartialEq, Eq)]
@@ -209,6 +212,11 @@ pub struct Doc {
     /// End of the fixed header part in `bytes` where the walk knows one (CRAM file definition; for BAI /
     /// CSI / tabix the offset of the optional trailing `n_no_coor`).
     pub header_end: usize,
+    /// The bytes are an uncompressed BAM / BCF record stream (read with `Reader::from`, `Opts::raw`).
+    pub raw: bool,
+    /// Hand-built legal layout that noodles does not write itself: name of the noodles-written corpus document
+    /// with the same content (its log, virtual positions aside, is the expected log).
+    pub equiv_of: Option<String>,
 }
 
 impl Doc {
